@@ -1,16 +1,17 @@
 #!/bin/bash
 # Extracts the models (coq/Extract/*X.v, needs the .vo files built) and compiles the drivers.
+# Re-done only when a model source, an extraction file or a driver changed (content hash).
 set -e
 cd "$(dirname "$0")"
+mkdir -p ../.cache
+stamp=$(cat ../coq/Base/*.v ../coq/Mem/*.v ../coq/Fetch/*.v ../coq/Disk/*.v ../coq/Hybrid/*.v ../coq/Extract/*.v *_driver.ml build.sh 2>/dev/null | sha1sum | cut -d' ' -f1)
+ok=1
+for fam in mem fetch fmt; do [ -x ${fam}_driver ] || ok=0; done
+if [ "$ok" = 1 ] && [ -f ../.cache/ocaml.stamp ] && [ "$(cat ../.cache/ocaml.stamp)" = "$stamp" ]; then exit 0; fi
 for fam in mem fetch fmt; do
   X=$(echo ${fam:0:1} | tr a-z A-Z)${fam:1}X
-  src=../coq/Extract/$X.v
-  if [ ! -f ${fam}_model.ml ] || [ -n "$(find ../coq -name '*.vo' -newer ${fam}_model.ml 2>/dev/null | head -1)" ] || [ $src -nt ${fam}_model.ml ]; then
-    coqc -Q ../coq FV $src > /dev/null
-    touch ${fam}_model.ml
-  fi
-  if [ ! -f ${fam}_driver ] || [ ${fam}_model.ml -nt ${fam}_driver ] || [ ${fam}_driver.ml -nt ${fam}_driver ]; then
-    ocamlfind ocamlopt -w -a -O2 -o ${fam}_driver ${fam}_model.mli ${fam}_model.ml ${fam}_driver.ml 2>/dev/null || \
-    ocamlfind ocamlopt -w -a -o ${fam}_driver ${fam}_model.mli ${fam}_model.ml ${fam}_driver.ml
-  fi
+  coqc -Q ../coq FV ../coq/Extract/$X.v > /dev/null
+  ocamlfind ocamlopt -w -a -O2 -o ${fam}_driver ${fam}_model.mli ${fam}_model.ml ${fam}_driver.ml 2>/dev/null || \
+  ocamlfind ocamlopt -w -a -o ${fam}_driver ${fam}_model.mli ${fam}_model.ml ${fam}_driver.ml
 done
+echo "$stamp" > ../.cache/ocaml.stamp
